@@ -37,7 +37,16 @@ class ExecResult:
     __slots__ = ("ok", "env", "log", "error", "phase")
 
 
-def run_source(src, filename="<decompiled>"):
+def py2_name(module, name):
+    """what `module.name` is renamed to by the unpickler's fix_imports (protocol < 3)"""
+    import _compat_pickle
+
+    if (module, name) in _compat_pickle.NAME_MAPPING:
+        return _compat_pickle.NAME_MAPPING[(module, name)]
+    return _compat_pickle.IMPORT_MAPPING.get(module, module), name
+
+
+def run_source(src, filename="<decompiled>", map_py2=False):
     """compile + exec `src` under stubs.  Returns ExecResult; never raises for
     failures of the program itself (phase tells where it failed)."""
     r = ExecResult()
@@ -50,8 +59,11 @@ def run_source(src, filename="<decompiled>"):
     def imp(name, globals=None, locals=None, fromlist=(), level=0):
         m = _Mod()
         for n in fromlist or ():
-            log.events.append(("import", name, n))
-            setattr(m, n, make_glob(name, n, log))
+            # map_py2: the program was decompiled from a pickle below protocol 3, whose Python-2
+            # spellings the VM renames; both spellings of a name denote the same global
+            m2, n2 = py2_name(name, n) if map_py2 else (name, n)
+            log.events.append(("import", m2, n2))
+            setattr(m, n, make_glob(m2, n2, log))
         if not fromlist:
             log.events.append(("import", name, None))
         return m
